@@ -1,12 +1,12 @@
 """C27 -- constraint enforcement is minimal and idempotent (G1, mode fp64, util._constrain_ages)."""
-from vt import runner
+from vt import g3, runner
 
 META = {
     "category": "proof",
     "text": "Every clause of C27 is a postcondition of the real util._constrain_ages (extracted from /repo on each "
             "run) under a contract with loop invariants; all obligations (postconditions at both exits, invariant "
             "initiation/preservation for the three loops, real-code asserts, index bounds) are discharged by z3 for "
-            "all array lengths, edge orders, iteration counts and doubles. Proof is the right level because the "
+            "all array lengths, edge orders, iteration counts and doubles; the Python wrapper util.constrain_ages is shown (G3, path enumeration) to pass its arguments to the kernel, to hand the kernel the sample-flag bit as the fixed mask (z3 bit-vectors) and to return the kernel result without storing into it. Proof is the right level because the "
             "property is a per-call postcondition of one numba kernel.",
     "design_ref": "DESIGN.md 4/C27, Appendix A.1",
     "level_note": "Trusted: the AST->SMT encoding; numpy primitive contracts (copy, zeros, all, nextafter); z3/cvc5. "
@@ -21,5 +21,8 @@ PLAN = {"level": "proof", "explanation": META["text"]}
 def run(ctx):
     runner.run_g1(ctx, ["util._constrain_ages"])
     runner.bounded_contract(ctx, "util._constrain_ages")
+    # the Python wrapper between the kernel and every caller: passes its arguments through, returns the kernel's
+    # result untouched (G3 data-flow + frame obligations), so the kernel's postconditions are the wrapper's
+    g3.constrain_ages_wrapper(g3.G3(ctx))
     ctx.add_assumption("A-TS-ORDER (lemma L1): a tskit tree sequence lists edges by non-decreasing parent time "
                        "and children are strictly younger, hence no earlier edge's child is a later edge's parent")
